@@ -4,6 +4,7 @@ import (
 	"bytes"
 	"context"
 	"fmt"
+	"go/types"
 	"os"
 	"os/exec"
 	"path/filepath"
@@ -63,6 +64,29 @@ func (o *Obligation) smt(getModel bool) string {
 	return sb.String()
 }
 
+// smallModelAsserts bounds every slice/string length that the replay would have to materialise.
+func (o *Obligation) smallModelAsserts() string {
+	c := o.ctx
+	var sb strings.Builder
+	seen := map[string]bool{}
+	intT := types.Typ[types.Int]
+	for _, m := range o.Model {
+		for _, t := range modelTerms(c, m) {
+			if seen[t] {
+				continue
+			}
+			seen[t] = true
+			switch {
+			case strings.HasPrefix(t, "(slen ") || strings.HasPrefix(t, "(str_len "):
+				sb.WriteString(fmt.Sprintf("(assert %s)\n", c.cmp("<=", intT, t, c.idxLit(20))))
+			case strings.HasPrefix(t, "(scap "):
+				sb.WriteString(fmt.Sprintf("(assert %s)\n", c.cmp("<=", intT, t, c.idxLit(64))))
+			}
+		}
+	}
+	return sb.String()
+}
+
 func runSolver(s solverDef, timeoutS int, file string) (status, out string, ms int64) {
 	ctx, cancel := context.WithTimeout(context.Background(), time.Duration(timeoutS+2)*time.Second)
 	defer cancel()
@@ -101,14 +125,39 @@ func Solve(obls []*Obligation, dir string, timeoutS int, allSolvers bool, jobs i
 	res := make([]*Result, len(obls))
 	var wg sync.WaitGroup
 	sem := make(chan struct{}, jobs)
+	// identical queries (e.g. the two byte-identical kbin copies) are solved once
+	texts := make([]string, len(obls))
+	first := map[string]int{}
+	dupOf := make([]int, len(obls))
 	for i, o := range obls {
+		texts[i] = o.smt(true)
+		if j, ok := first[texts[i]]; ok {
+			dupOf[i] = j
+		} else {
+			first[texts[i]] = i
+			dupOf[i] = -1
+		}
+	}
+	defer func() {
+		for i, j := range dupOf {
+			if j >= 0 && res[j] != nil {
+				cp := *res[j]
+				cp.O = obls[i]
+				res[i] = &cp
+			}
+		}
+	}()
+	for i, o := range obls {
+		if dupOf[i] >= 0 {
+			continue
+		}
 		wg.Add(1)
 		go func(i int, o *Obligation) {
 			defer wg.Done()
 			sem <- struct{}{}
 			defer func() { <-sem }()
 			file := filepath.Join(dir, fmt.Sprintf("o%04d.smt2", i))
-			text := o.smt(true)
+			text := texts[i]
 			if err := os.WriteFile(file, []byte(text), 0o644); err != nil {
 				res[i] = &Result{O: o, Status: "error", Output: err.Error()}
 				return
@@ -144,6 +193,21 @@ func Solve(obls []*Obligation, dir string, timeoutS int, allSolvers bool, jobs i
 			}
 			if r.Status == "sat" {
 				r.Model = parseModel(r.Output)
+				// prefer a small counterexample (replayable): bound every length in the model terms
+				if small := o.smallModelAsserts(); small != "" && !o.IsCover {
+					f2 := strings.TrimSuffix(file, ".smt2") + ".small.smt2"
+					t2 := strings.Replace(text, "(check-sat)\n", small+"(check-sat)\n", 1)
+					if os.WriteFile(f2, []byte(t2), 0o644) == nil {
+						for _, s := range solvers[:2] {
+							st, out, _ := runSolver(s, timeoutS, f2)
+							if st == "sat" {
+								r.Model = parseModel(out)
+								r.Output = out
+								break
+							}
+						}
+					}
+				}
 			}
 			res[i] = r
 		}(i, o)
